@@ -150,7 +150,7 @@ def _fin_where(x, pred):
     return pred(x)
 
 
-@harness('R5t', targets=['kopf._core.intents.registries.WebhooksRegistry.iter_handlers'], props=['C18'],
+@harness('R5t', targets=['kopf._core.intents.registries.WebhooksRegistry.iter_handlers'], props=['C18', 'C15'],
          clauses=['excluded', 'webhook_id_and_type', 'operation', 'subresource_and_filters', 'mutating_on_delete',
                   'selected_when_all_match', 'frame'],
          canaries=['canary.yields_all', 'canary.never_yields'],
@@ -163,7 +163,7 @@ def R5t(vc):
 
 
 @harness('R5', targets=['kopf._core.intents.registries.WebhooksRegistry.iter_handlers',
-                        'kopf._core.intents.registries._matches_subresource'], props=['C18'],
+                        'kopf._core.intents.registries._matches_subresource'], props=['C18', 'C09', 'C15', 'C17'],
          clauses=['excluded', 'webhook_id_and_type', 'operation', 'subresource_and_filters', 'mutating_on_delete',
                   'selected_when_all_match', 'frame'],
          canaries=['canary.yields_all', 'canary.never_yields'],
@@ -554,7 +554,7 @@ def a5_random(rng, depth):
 
 
 @bounded('A5', targets=['kopf._cogs.structs.patches.Patch.as_json_patch', 'kopf._cogs.structs.patches.Patch._apply_patch'],
-         props=['C18', 'C06', 'C08'], clauses=['merge_fidelity', 'fns_fidelity'],
+         props=['C18', 'C06', 'C08', 'C03', 'C13', 'C16'], clauses=['merge_fidelity', 'fns_fidelity'],
          universe='(body, merge-patch, fns): exhaustive over A: one top-level key t in {a, b, "a/b", "~x"} whose value on either '
                   'side is absent, a leaf of {null, 0, 1, "", "x", [], [0], {}} or a one-member mapping over those keys/leaves, '
                   'times 5 fn sets (none, append-to-list, set-nested-key, delete-keys, all three); B: two sibling members '
